@@ -1032,6 +1032,21 @@ func (t *TreeOut) checkAttempts() {
 		for ct.FindCall(uint64(n)) != nil {
 			n++
 		}
+		// C07: "every non-top-level node has exactly one parent" - which nodes are top level is
+		// known from the history only (several top-level calls on one EVM give several roots)
+		for i, a := range atts {
+			if i >= n {
+				break
+			}
+			if c := ct.FindCall(uint64(i)); c != nil && !a.Top && c.Parent == nil {
+				t.add("C07", "C07.parent", "orphan", a.StepSeq, "node %d was issued by an instruction inside call %d but has no parent in the tree", i, func() int64 {
+					if a.Parent != nil {
+						return int64(a.Parent.Node)
+					}
+					return -1
+				}())
+			}
+		}
 		// a panicking tx leaves attempts without outcome: compare only when sizes can match
 		if n != len(atts) {
 			t.add("C08", "C08.count", "node-count", t.L.Len(), "call tree has %d nodes; the step stream shows %d CALL/CREATE/CREATE2 attempts (incl. top level)", n, len(atts))
